@@ -69,7 +69,7 @@ def L1(kind, state, shape, ring=1, tiers=('quick', 'thorough'), timeout=900):
         jid = 'L1u.%s.%s.N%d' % (state, shape, ring)
     return {'id': jid, 'props': list(L1_PROPS), 'harness': 'l1_step.c', 'enforce': enforce, 'replace': replace, 'loop_contracts': False,
             'defines': defs + sh['defines'] + ['CAT_UNSOLICITED_CMD_BUFFER_SIZE=%d' % ring], 'expect': ['postcondition'], 'label': 'shape-bounded',
-            'timeout': timeout, 'replay': None, 'cbmc_flags': ['--unwind', str(sh['unwind']), '--unwinding-assertions'], 'tiers': list(tiers),
+            'timeout': timeout, 'replay': None, 'cbmc_flags': ['--unwind', str(sh['unwind']), '--unwinding-assertions', '--object-bits', '10'], 'tiers': list(tiers),
             'shape': sh['text'] + SHAPE_TEXT % ring}
 
 
